@@ -3,7 +3,7 @@
 
 #![allow(clippy::unnecessary_fallible_conversions)] // This wrongly trips on binrw code
 
-use std::io::{Cursor, Seek, SeekFrom};
+use std::io::{Cursor, Read, Seek, SeekFrom};
 use std::mem::size_of;
 
 use binrw::BinRead;
@@ -76,6 +76,20 @@ enum ModelFlags2 {
     Unknown3 = 0x01,
 }
 
+/// Reads the string block as far as the file goes instead of reserving `size` bytes up front.
+#[binrw::parser(reader)]
+fn read_string_block(size: u32) -> binrw::BinResult<Vec<u8>> {
+    let mut strings = Vec::new();
+    reader.take(size as u64).read_to_end(&mut strings)?;
+    if strings.len() != size as usize {
+        return Err(binrw::Error::Io(std::io::Error::new(
+            std::io::ErrorKind::UnexpectedEof,
+            "string block is larger than the file",
+        )));
+    }
+    Ok(strings)
+}
+
 #[binrw]
 #[derive(Debug, Clone, PartialEq)]
 #[br(import { vertex_declaration_count: u16 })]
@@ -89,7 +103,7 @@ pub struct ModelHeader {
     string_count: u16,
     string_size: u32,
 
-    #[br(count = string_size)]
+    #[br(parse_with = read_string_block, args(string_size))]
     strings: Vec<u8>,
 
     radius: f32,
